@@ -19,7 +19,8 @@ class Func:
         self.module, self.node, self.cls = module, node, cls
         self.name = node.name
         self.qname = (cls.name + "." if cls else "") + node.name
-        self.is_property = any(isinstance(d, ast.Name) and d.id == "property" for d in node.decorator_list)
+        self.is_property = any((isinstance(d, ast.Name) and d.id in ("property", "cached_property")) or (isinstance(d, ast.Attribute) and d.attr == "cached_property")
+                               for d in node.decorator_list)
         self.is_classmethod = any(isinstance(d, ast.Name) and d.id == "classmethod" for d in node.decorator_list)
         self.is_static = any(isinstance(d, ast.Name) and d.id in ("staticmethod",) for d in node.decorator_list)
         self.is_setter = any(isinstance(d, ast.Attribute) and d.attr == "setter" for d in node.decorator_list)
